@@ -266,6 +266,20 @@ theorem unselected_elements_irrelevant {ρ n spf args args' spl a sp i e v} (hn 
       | index hf _ _ _ _ => simp [tagOf] at hf
   exact list_selection hn ha hidx' hv
 
+/-- **the length of a list literal is its number of element expressions — whatever they are**: `(e₀ … eₖ ㅁㄹ) ㅈㄷ` has the by-name
+value k + 1 for *every* choice of the `eᵢ` (raising, diverging, ill-scoped: none of them is evaluated) … -/
+theorem length_ignores_elements {ρ nl spl nm spm args sp sp'} (hl : encodeNumber nl = [7, 2]) (hm : encodeNumber nm = [4, 3]) :
+    BN ρ (.call (.lit nl spl) [.call (.lit nm spm) args sp'] sp) (.int args.length) := by
+  have := BN.lenList (ρ := ρ) (spf := spl) (sp := sp) hl (BN.mkList (ρ := ρ) (spf := spm) (args := args) (sp := sp') hm)
+  simpa using this
+
+/-- … and the evaluator computes exactly that, for every list of element expressions (adequacy) -/
+theorem evaluator_length_of_any_list (nl : Int) (spl : Span) (nm : Int) (spm : Span) (args : List AST) (sp sp' : Span) (w : World)
+    (hl : encodeNumber nl = [7, 2]) (hm : encodeNumber nm = [4, 3]) :
+    ∃ (hh : Nat) (s' : Store), Eval (alloc initStore (.call (.lit nl spl) [.call (.lit nm spm) args sp'] sp) ⟨[], []⟩) w
+        (.frame initStore.cells.size) hh (.ok (.arg (.strict (.int args.length)))) s' w :=
+  by_name_program _ _ w (length_ignores_elements hl hm)
+
 /-- … and so does the evaluator's result (adequacy): both closed programs evaluate to the same integer -/
 theorem evaluator_ignores_unselected_elements (n : Int) (spf : Span) (args args' : List AST) (spl : Span) (a : AST) (sp : Span)
     (i : Int) (e : AST) (m : Int) (w : World) (hn : encodeNumber n = [4, 3])
